@@ -16,14 +16,15 @@ CONSTANTS
   PreIds = {%s}
   Pairs = %s
   Commands = {%s}
+  Hists = {%s}
 INVARIANTS %s
 CHECK_DEADLOCK FALSE
 """
 
 
-def cfg(minp, maxp, layouts, pre, pairs, cmds, inv):
+def cfg(minp, maxp, layouts, pre, pairs, cmds, inv, hists=("added",)):
     return CFG % (minp, maxp, ", ".join(map(str, layouts)), ", ".join(map(str, pre)), "TRUE" if pairs else "FALSE",
-                  ", ".join('"%s"' % c for c in cmds), inv)
+                  ", ".join('"%s"' % c for c in cmds), ", ".join('"%s"' % h for h in hists), inv)
 
 
 MC_INV = "Inv_C08 Inv_OnlineList Inv_Registry"
@@ -64,7 +65,11 @@ def run(ctx, cases_override=None):
     if cases_override is None:
         if th:
             gens = [cfg(0, 2, range(5), [0, 1, 2], False, ["lint", "ci"], "EmitCase"),
-                    cfg(1, 1, [1], [0], True, ["lint"], "EmitCase")]
+                    # `ci` on two more histories (rule file modified / renamed on the branch)
+                    cfg(0, 2, [1, 3], [0, 1, 2], False, ["ci"], "EmitCase", hists=("modified", "moved")),
+                    # pairs of names
+                    cfg(1, 1, [1], [0], True, ["lint"], "EmitCase"),
+                    cfg(1, 1, [1], [0], True, ["ci"], "EmitCase", hists=("modified",))]
         else:
             gens = [cfg(0, 1, [1], [0], False, ["lint", "ci"], "EmitCase"),
                     cfg(2, 2, [2, 3], [1], False, ["lint"], "EmitCase"),
